@@ -59,6 +59,14 @@ Theorem c17_budget_available (c : conn B) (b : B) (ks : list kres) :
   rerr (snd (op_write c b ks)) <> EOverflow.
 Proof. exact (budget_available den L maxsend_pos c b ks). Qed.
 
+(* several goroutines: whatever the interleaving of their calls (each call one critical section of Conn.mux, which the
+   concurrent tier of the harness checks on the real code) the backlog stays within the limit and the counter exact *)
+Theorem c17_concurrent_calls (ts : list (list (op B))) (ops : list (op B)) :
+  merges ts ops -> (0 < maxbuf)%Z ->
+  let s := fst (run conn0 ops) in
+  (0 <= left s <= maxbuf)%Z /\ (closed s = false -> left s = backlog (wlist s)).
+Proof. exact (bound_merge den L maxsend_pos ts ops). Qed.
+
 End Statements.
 
 (* ---- non-vacuity (computed on the extracted instance): limit 10; 6 bytes queued, 4 more fit, 1 more overflows and
@@ -89,5 +97,6 @@ Print Assumptions c17_file_ranges_not_counted.
 Print Assumptions c17_bound.
 Print Assumptions c17_overflow_iff_write.
 Print Assumptions c17_overflow_iff_writev.
+Print Assumptions c17_concurrent_calls.
 Print Assumptions c17_budget_restored.
 Print Assumptions c17_budget_available.
